@@ -181,15 +181,11 @@ structure Sim (cs : SpaceMap) (st : IState) (ss : SState) : Prop where
   out : (st.out.filter hasSeg).map eraseRectPts = ss.out.map eraseRectPts
   csmap : st.csmap = cs
 
-/-- Operations the proved simulation covers: no pattern colour (open finding), and `sc`-family
-operand counts 1, 3 or 4 (pdfminer ignores other counts). -/
+/-- Operations the proved simulation covers: no `sc`-family operator while a Pattern colour space is
+current (open finding `pattern-colour-not-recorded`). -/
 def supOk (ss : SState) : SOp → Bool
   | .sc _ stroking xs pat =>
-    !(if stroking then ss.g.sspace else ss.g.nspace).pattern &&
-      (xs.length + (if pat.isSome then 1 else 0) == 1 || xs.length + (if pat.isSome then 1 else 0) == 3 ||
-        xs.length + (if pat.isSome then 1 else 0) == 4)
-  | .bad k args =>
-    !([OpK.sc, .scn, .SC, .SCN].contains k) || (args.length == 1 || args.length == 3 || args.length == 4)
+    !(if stroking then ss.g.sspace else ss.g.nspace).pattern
   | _ => true
 
 def supported (cs : SpaceMap) : List SOp → SState → Bool
@@ -513,39 +509,30 @@ theorem sim_cs (cs : SpaceMap) (st : IState) (ss : SState) (hs : Sim cs st ss) (
               gstack := hs.gstack, path := hs.path, ok := hs.ok, out := hs.out, csmap := hs.csmap }
 
 theorem setColourN_ok (st : IState) (b : Bool) (xs : List Rat)
-    (hn : (if b then st.gs.scs else st.gs.ncs) = xs.length)
-    (hlen : xs.length = 1 ∨ xs.length = 3 ∨ xs.length = 4) :
+    (hn : (if b then st.gs.scs else st.gs.ncs) = xs.length) (hlen : xs.length ≠ 0) :
     doSetColourN { st with argstack := st.argstack ++ xs.map Operand.num } b = .ok (setColour st b xs) := by
   have hl : (xs.map Operand.num).length = xs.length := by simp
   unfold doSetColourN
   simp only [hn]
-  rcases hlen with h1 | h3 | h4
+  by_cases h1 : xs.length = 1
   · have hp := pop_append 1 st (xs.map Operand.num) (by decide) (by rw [hl, h1])
     match xs, h1 with
     | [x], _ =>
       simp only [List.length_singleton, if_true]
       rw [hp]
       simp [safeFloat]
-  · have hp := pop_append xs.length st (xs.map Operand.num) (by omega) hl
-    have h31 : ¬ xs.length = 1 := by omega
-    simp only [h31, if_false, h3, true_or, if_true]
-    rw [h3] at hp
+  · have hp := pop_append xs.length st (xs.map Operand.num) hlen hl
+    simp only [h1, hlen, if_false]
     rw [hp]
-    simp [allNums_nums, h3]
-  · have hp := pop_append xs.length st (xs.map Operand.num) (by omega) hl
-    have h41 : ¬ xs.length = 1 := by omega
-    simp only [h41, if_false, h4, or_true, if_true]
-    rw [h4] at hp
-    rw [hp]
-    simp [allNums_nums, h4]
+    simp [allNums_nums]
 
 theorem setColourN_ignored (st : IState) (b : Bool) (args : List Operand)
     (hn : (if b then st.gs.scs else st.gs.ncs) = args.length)
-    (hlen : args.length = 1 ∨ args.length = 3 ∨ args.length = 4) (hbad : allNums args = none) :
+    (hlen : args.length ≠ 0) (hbad : allNums args = none) :
     doSetColourN { st with argstack := st.argstack ++ args } b = .ok st := by
   unfold doSetColourN
   simp only [hn]
-  rcases hlen with h1 | h3 | h4
+  by_cases h1 : args.length = 1
   · have hp := pop_append 1 st args (by decide) h1
     match args, h1, hbad with
     | [x], _, hbad =>
@@ -556,14 +543,10 @@ theorem setColourN_ignored (st : IState) (b : Bool) (args : List Operand)
         | none => rfl
         | some r => simp [allNums, hx] at hbad
       simp [this]
-  · have hp := pop_append args.length st args (by omega) rfl
-    simp only [h3, true_or, if_true] at hp ⊢
+  · have hp := pop_append args.length st args hlen rfl
+    simp only [h1, hlen, if_false]
     rw [hp]
-    simp [hbad, h3]
-  · have hp := pop_append args.length st args (by omega) rfl
-    simp only [h4, or_true, if_true] at hp ⊢
-    rw [hp]
-    simp [hbad, h4]
+    simp [hbad]
 
 theorem scKey (k : OpK) (b : Bool) (hk : [OpK.sc, .scn, .SC, .SCN].contains k = true)
     (hb : b = (k == .SC || k == .SCN)) (st : IState) :
@@ -593,24 +576,22 @@ theorem sim_sc (cs : SpaceMap) (st : IState) (ss : SState) (hs : Sim cs st ss) (
     (xs : List Rat) (pat : Option String) (hok : opOk cs ss (.sc k b xs pat) = true)
     (hsup : supOk ss (.sc k b xs pat) = true) :
     ∃ st', execute (tokens (.sc k b xs pat)) st = .ok st' ∧ Sim cs st' (stepS cs ss (.sc k b xs pat)) := by
-  simp only [supOk, Bool.and_eq_true, Bool.not_eq_true', Bool.or_eq_true, beq_iff_eq] at hsup
-  obtain ⟨hnp, hlen⟩ := hsup
+  have hnp : (if b then ss.g.sspace else ss.g.nspace).pattern = false := by
+    simpa [supOk] using hsup
   simp only [opOk, Bool.and_eq_true, beq_iff_eq] at hok
   obtain ⟨⟨hk, hb⟩, hsc⟩ := hok
   have hgs : (if b then st.gs.scs else st.gs.ncs) = (if b then ss.g.sspace else ss.g.nspace).n := by
     rw [hs.gs]; cases b <;> simp [gsOf]
   cases pat with
   | none =>
-    have hxn : xs.length = (if b then ss.g.sspace else ss.g.nspace).n := by
+    have hx : (if b then ss.g.sspace else ss.g.nspace).n ≠ 0 ∧
+        xs.length = (if b then ss.g.sspace else ss.g.nspace).n := by
       simpa [scOk, hnp] using hsc
-    have hlen' : xs.length = 1 ∨ xs.length = 3 ∨ xs.length = 4 := by
-      simp only [Option.isSome_none, Bool.false_eq_true, if_false, Nat.add_zero] at hlen
-      rcases hlen with (h | h) | h <;> simp [h]
     refine ⟨setColour st b xs, ?_, ?_⟩
     · have : tokens (.sc k b xs none) = (xs.map Operand.num).map Tok.operand ++ [.op k] := by
         simp [tokens, nums_eq]
       rw [this, exec_operands, exec_single, scKey k b hk hb]
-      exact setColourN_ok st b xs (by rw [hgs, hxn]) hlen'
+      exact setColourN_ok st b xs (by rw [hgs, hx.2]) (by rw [hx.2]; exact hx.1)
     · simp only [stepS]
       cases b
       · exact { ctm := hs.ctm, gs := by simp [setColour, setCol, gsOf, hs.gs],
@@ -619,21 +600,16 @@ theorem sim_sc (cs : SpaceMap) (st : IState) (ss : SState) (hs : Sim cs st ss) (
                 gstack := hs.gstack, path := hs.path, ok := hs.ok, out := hs.out, csmap := hs.csmap }
   | some p =>
     -- a name operand outside a Pattern space: the operator is ignored by both
-    have hxn : xs.length + 1 = (if b then ss.g.sspace else ss.g.nspace).n := by
+    have hx : (if b then ss.g.sspace else ss.g.nspace).n ≠ 0 ∧
+        xs.length + 1 = (if b then ss.g.sspace else ss.g.nspace).n := by
       simpa [scOk, hnp] using hsc
     have hargs : (xs.map Operand.num ++ [Operand.name p]).length = xs.length + 1 := by simp
-    have hlen' : (xs.map Operand.num ++ [Operand.name p]).length = 1 ∨
-        (xs.map Operand.num ++ [Operand.name p]).length = 3 ∨
-        (xs.map Operand.num ++ [Operand.name p]).length = 4 := by
-      rw [hargs]
-      simp only [Option.isSome_some, if_true] at hlen
-      rcases hlen with (h | h) | h <;> simp [h]
     refine ⟨st, ?_, ?_⟩
     · have : tokens (.sc k b xs (some p)) =
           (xs.map Operand.num ++ [Operand.name p]).map Tok.operand ++ [.op k] := by
         simp [tokens, nums_eq]
       rw [this, exec_operands, exec_single, scKey k b hk hb]
-      exact setColourN_ignored st b _ (by rw [hgs, hargs, hxn]) hlen' (allNums_snoc_name xs p)
+      exact setColourN_ignored st b _ (by rw [hgs, hargs, hx.2]) (by rw [hargs]; omega) (allNums_snoc_name xs p)
     · simp only [stepS, hnp, Bool.false_eq_true, if_false]
       exact hs
 
@@ -663,9 +639,11 @@ theorem sim_bad (cs : SpaceMap) (st : IState) (ss : SState) (hs : Sim cs st ss) 
       args.length = (if b then ss.g.sspace else ss.g.nspace).n →
       doOp k { st with argstack := st.argstack ++ args } = .ok st := by
     intro b hk hb hnp hn
-    have hlen : args.length = 1 ∨ args.length = 3 ∨ args.length = 4 := by
-      simp only [supOk, hk, Bool.not_true, Bool.false_or, Bool.or_eq_true, beq_iff_eq] at hsup
-      rcases hsup with (h | h) | h <;> simp [h]
+    have hlen : args.length ≠ 0 := by
+      intro h0
+      have : args = [] := List.length_eq_zero_iff.1 h0
+      subst this
+      simp [allNums] at hbad'
     have hgs : (if b then st.gs.scs else st.gs.ncs) = args.length := by
       rw [hs.gs, hn]; cases b <;> simp [gsOf]
     rw [scKey k b hk hb]
